@@ -36,9 +36,15 @@ Prec(e) == CASE e.k = "leaf" -> 4 [] e.k = "not" -> 3 [] e.k = "and" -> 2 [] e.k
 \* a spelling variant is a record of independent choices
 Variants == [acc : {"dot", "bracket"}, ann : {"full", "ctx", "bare", "ret"}, arr : {"brackets", "generic", "union"},
              sep : {",", ";", "nl"}, quote : BOOLEAN, comment : {"none", "block", "doc", "stars", "empty", "line"}, redundant : BOOLEAN, trailing : BOOLEAN,
-             dblnot : BOOLEAN]
+             dblnot : BOOLEAN,
+             \* how the leaf "c" is spelled: directly, through a traversal of D.par (onto a relation or onto a permission), or as a permission call;
+             \* and the order of the three classes in the document (class order means nothing in TypeScript)
+             leafc : {"inc", "trav_rel", "trav_perm", "perm"}, order : {"UGD", "DGU", "GDU", "UDG"}]
 
-LeafTxt(x, v) == IF v.acc = "dot" THEN "this.related." \o x \o ".includes(ctx.subject)"
+LeafTxt(x, v) == IF x = "c" /\ v.leafc = "trav_rel" THEN "this.related.par.traverse((p) => p.related.c.includes(ctx.subject))"
+                 ELSE IF x = "c" /\ v.leafc = "trav_perm" THEN "this.related.par.traverse((p) => p.permits.q(ctx))"
+                 ELSE IF x = "c" /\ v.leafc = "perm" THEN "this.permits.q(ctx)"
+                 ELSE IF v.acc = "dot" THEN "this.related." \o x \o ".includes(ctx.subject)"
                  ELSE "this.related[\"" \o x \o "\"].includes(ctx.subject)"
 Paren(s) == "(" \o s \o ")"
 \* comments between tokens, in the spellings TypeScript accepts
@@ -59,16 +65,24 @@ TypeTxt(v) == CASE v.arr = "brackets" -> "U[]" [] v.arr = "generic" -> "Array<U>
 Sep(v) == CASE v.sep = "," -> ", " [] v.sep = ";" -> "; " [] OTHER -> "\n    "
 Name(x, v) == IF v.quote THEN "\"" \o x \o "\"" ELSE x
 Related(v) == "  related: {" \o Cm(v) \o Name("a", v) \o ": " \o TypeTxt(v) \o Sep(v) \o Name("b", v) \o ": " \o TypeTxt(v) \o Sep(v)
-              \o Name("c", v) \o ": U[]" \o (IF v.trailing /\ v.sep # "nl" THEN Sep(v) ELSE "") \o " }\n"
+              \o Name("c", v) \o ": U[]" \o Sep(v) \o Name("par", v) \o ": D[]" \o (IF v.trailing /\ v.sep # "nl" THEN Sep(v) ELSE "") \o " }\n"
 Head_(v) == CASE v.ann = "full" -> "(ctx: Context): boolean =>" [] v.ann = "ctx" -> "(ctx: Context) =>"
               [] v.ann = "ret" -> "(ctx): boolean =>" [] OTHER -> "(ctx) =>"
+ClassU == "class U implements Namespace {}\n"
+ClassG == "class G implements Namespace { related: { m: U[] } }\n"
+HasQ(v) == v.leafc \in {"trav_perm", "perm"}
+ClassD(e, v) ==
+  "class D implements Namespace {\n" \o Related(v)
+  \o "  permits = {" \o Cm(v) \o Name("p", v) \o ": " \o Head_(v) \o " " \o Show(e, v)
+  \o (IF HasQ(v) THEN "," \o Cm(v) \o "q: (ctx) => this.related.c.includes(ctx.subject)" ELSE "")
+  \o (IF v.trailing THEN "," ELSE "") \o " }\n}\n"
 Program(e, v) ==
   "import { Namespace, SubjectSet, Context } from \"@ory/keto-namespace-types\"\n"
-  \o "class U implements Namespace {}\n"
-  \o "class G implements Namespace { related: { m: U[] } }\n"
-  \o "class D implements Namespace {\n" \o Related(v)
-  \o "  permits = {" \o Cm(v) \o Name("p", v) \o ": " \o Head_(v) \o " " \o Show(e, v)
-  \o (IF v.trailing THEN "," ELSE "") \o " }\n}\n"
+  \o (CASE v.order = "UGD" -> ClassU \o ClassG \o ClassD(e, v)
+         [] v.order = "DGU" -> ClassD(e, v) \o ClassG \o ClassU
+         [] v.order = "GDU" -> ClassG \o ClassD(e, v) \o ClassU
+         [] OTHER -> ClassU \o ClassD(e, v) \o ClassG)
+Rels(v) == {"a", "b", "c", "p", "par"} \cup (IF HasQ(v) THEN {"q"} ELSE {})
 
 RECURSIVE Eval(_, _)
 Eval(e, val) == CASE e.k = "leaf" -> val[e.r] [] e.k = "not" -> ~Eval(e.c, val)
@@ -96,6 +110,7 @@ Chosen == IF Depth >= 3 THEN {RandExpr(Depth) : i \in 1..NSample}
 Init == e \in Chosen /\ vi \in 1..NVariants /\ done = FALSE
 Next == /\ ~done /\ done' = TRUE /\ UNCHANGED <<e, vi>>
         /\ \E v \in {RandomElement(Variants)} :
-             PrintT(ToJson([src |-> Program(e, v), tt |-> TT(e), body |-> Show(e, v), dblnot |-> v.dblnot, nest |-> Nest(e)]))
+             PrintT(ToJson([src |-> Program(e, v), tt |-> TT(e), body |-> Show(e, v), dblnot |-> v.dblnot, nest |-> Nest(e),
+                            leafc |-> v.leafc, order |-> v.order, rels |-> Rels(v)]))
 Spec == Init /\ [][Next]_vars
 =============================================================================
